@@ -637,6 +637,12 @@ def run_C04(ck):
     for _ in range(25 if quick else 200):
         n = rng.choice([2, 3, 7, 50, 200, 1000])
         inputs.append(rng.bytes(n) if rng.chance(1, 2) else bytes(rng.choice([0, 0xff, 0x80]) for _ in range(n)))
+    # committed corpus: inputs that drive the range encoder into rare states (carry out of bit 32 while the low 32 bits are
+    # >= 0xFF000000; long pending 0xFF runs), found once by tools/carrysearch - random data reaches them about once per 2e9 bytes
+    for cl in open(os.path.join(ROOT, 'corpus', 'c04_rare_encoder_states.txt')):
+        kind, hexdata = cl.split()
+        inputs.append(bytes.fromhex(hexdata)); ck.count('corpus_' + kind.rstrip('0123456789'))
+        inputs.append(bytes.fromhex(hexdata) + rng.bytes(rng.range(1, 40)))
     edge = [65535, 65536, 65537, 131072] + ([] if quick else [131073, 196608, 65536 * 5 + 1])
     cases = []
     def add(op, data, opt=None, rd='all', wr='all'):
